@@ -60,10 +60,12 @@ func (v *Reader) Seek(offset int) {
 	if err != nil {
 		panic(err)
 	}
+	verifSeek(v, offset)
 }
 
 func (v *Reader) Read(length int) string {
 	if length == 0 || v.offset+length-1 >= v.size {
+		verifRead(v, length, "")
 		return ""
 	}
 	currentString := make([]byte, length)
@@ -72,13 +74,16 @@ func (v *Reader) Read(length int) string {
 		panic(err)
 	}
 	if n != length {
+		verifRead(v, length, "")
 		return ""
 	}
+	verifRead(v, length, string(currentString))
 	return string(currentString)
 }
 
 func (v *Reader) ReadAt(length int, offset int) string {
 	if length == 0 || offset+length-1 >= v.size {
+		verifReadAt0(v, length, offset)
 		return ""
 	}
 	currentString := make([]byte, length)
@@ -88,8 +93,10 @@ func (v *Reader) ReadAt(length int, offset int) string {
 		panic(err)
 	}
 	if n != length {
+		verifReadAt(v, length, "")
 		return ""
 	}
+	verifReadAt(v, length, string(currentString))
 	return string(currentString)
 }
 
